@@ -29,14 +29,23 @@ pub struct ScriptReader {
     steps: std::collections::VecDeque<Step>,
     pub supplied: usize,
     pub read_calls: usize,
+    /// the last read call returned WouldBlock
+    pub last_was_wouldblock: bool,
 }
 
 impl Read for ScriptReader {
     fn read(&mut self, buf: &mut [u8]) -> io::Result<usize> {
         self.read_calls += 1;
+        self.last_was_wouldblock = false;
         match self.steps.pop_front() {
-            None => Err(io::ErrorKind::WouldBlock.into()),
-            Some(Step::WouldBlock) => Err(io::ErrorKind::WouldBlock.into()),
+            None => {
+                self.last_was_wouldblock = true;
+                Err(io::ErrorKind::WouldBlock.into())
+            }
+            Some(Step::WouldBlock) => {
+                self.last_was_wouldblock = true;
+                Err(io::ErrorKind::WouldBlock.into())
+            }
             Some(Step::Eof) => {
                 self.steps.push_front(Step::Eof);
                 Ok(0)
@@ -258,6 +267,7 @@ pub fn feed(
         steps: steps.into(),
         supplied: 0,
         read_calls: 0,
+        last_was_wouldblock: false,
     };
     let mut fb = FrameBuffer::new();
     let mut delivered: Vec<AMQPFrame> = Vec::new();
@@ -274,6 +284,16 @@ pub fn feed(
         match r {
             Ok(n) => {
                 returned_bytes += n;
+                // The transport is edge-triggered: bytes that have arrived are only
+                // looked at again after a would-block, so returning while more might
+                // be readable leaves complete frames unhandled for an unbounded time.
+                if !reader.last_was_wouldblock {
+                    res.violate(
+                        "returned_before_would_block",
+                        format!("read_from call {} returned Ok({}) although the transport had not reported would-block ({} of {} bytes supplied)", calls, n, reader.supplied, stream.len()),
+                    );
+                    return;
+                }
                 if n != reader.supplied - before {
                     res.violate(
                         "byte_count",
@@ -400,6 +420,23 @@ fn check_terminal(e: &Error, terminal: &Terminal, res: &mut CaseResult) {
 
 pub fn run(rc: &mut RunCtx) {
     let seed = rc.seed;
+    // (0) end to end: bursts far beyond the read quantum, then silence
+    if !rc.miri() {
+        for i in 0..rc.n(24, 400) {
+            let id = format!("e2e:{}", i);
+            if !rc.mine(&id) {
+                continue;
+            }
+            rc.begin(&id);
+            let mut res = CaseResult::new(id);
+            let mut r = Rng::for_case(seed, 6, 5_000_000 + i);
+            e2e_burst(&mut r, &mut res);
+            for p in crate::run::io_panics(&crate::run::take_panics()) {
+                res.violate("panic", format!("{} at {}", p.msg, p.loc));
+            }
+            rc.end(res);
+        }
+    }
     // (1) exhaustive single and double cuts of short streams
     let nshort = if rc.miri() { 1 } else { rc.n(6, 32) };
     for s in 0..nshort {
@@ -462,7 +499,7 @@ pub fn run(rc: &mut RunCtx) {
         rc.begin(&id);
         let mut res = CaseResult::new(id);
         let mut r = Rng::for_case(seed, 6, 1000 + i);
-        let nf = r.usize(1, 12);
+        let nf = if i % 20 == 7 { r.usize(20, 60) } else { r.usize(1, 12) };
         let (frames, encs) = gen_stream(&mut r, nf);
         let len: usize = encs.iter().map(|x| x.len()).sum();
         let cuts: Vec<usize> = match r.below(5) {
@@ -508,6 +545,81 @@ pub fn run(rc: &mut RunCtx) {
     }
 }
 
+/// End to end: the same server stream (a burst of deliveries, then silence) cut in
+/// different ways must produce the same client-visible history, completely.
+fn e2e_burst(r: &mut Rng, res: &mut CaseResult) {
+    use crate::mock::Segmenter;
+    use crate::reflex::{deliver_frames, even_partition, Msg, Reflex};
+    use crate::session::{self, W};
+    use amiquip::{ConsumerMessage, ConsumerOptions};
+    let nmsg = r.usize(5, 40);
+    let sizes: Vec<usize> = (0..nmsg).map(|_| *r.pick(&[0usize, 10, 1000, 4000, 4000, 30000])).collect();
+    let total: usize = sizes.iter().sum();
+    let mut histories: Vec<Vec<(u64, usize, u64)>> = Vec::new();
+    for seg in [Segmenter::Whole, Segmenter::Fixed(1 + r.usize(0, 6)), Segmenter::Fixed(4096), Segmenter::Random(Rng::new(r.next()), 70000)] {
+        if matches!(seg, Segmenter::Fixed(n) if n < 8) && total > 200_000 {
+            continue;
+        }
+        let (conn, h) = session::open_default(Reflex::default());
+        let mut conn = match conn {
+            Ok(c) => c,
+            Err(e) => {
+                res.inconclusive(format!("handshake: {}", ek(&e)));
+                return;
+            }
+        };
+        let ch = match conn.open_channel(None) {
+            Ok(c) => c,
+            Err(e) => {
+                res.inconclusive(ek(&e));
+                return;
+            }
+        };
+        let cons = match ch.basic_consume("q", ConsumerOptions::default()) {
+            Ok(c) => c,
+            Err(e) => {
+                res.inconclusive(ek(&e));
+                return;
+            }
+        };
+        let mut bytes = Vec::new();
+        for (i, sz) in sizes.iter().enumerate() {
+            let m = Msg { exchange: "x".into(), routing_key: "k".into(), redelivered: false, delivery_tag: i as u64 + 1, props: Default::default(), body: vec![i as u8; *sz], message_count: 0 };
+            bytes.extend(deliver_frames(ch.channel_id(), cons.consumer_tag(), &m, &even_partition(*sz, 100_000)).concat());
+        }
+        let seg_name = format!("{:?}", seg).chars().take(24).collect::<String>();
+        h.with(|st| st.segmenter = seg);
+        // one burst, then the server stays quiet
+        h.inject(bytes);
+        let mut hist = Vec::new();
+        for i in 0..nmsg {
+            match cons.receiver().recv_timeout(W) {
+                Ok(ConsumerMessage::Delivery(d)) => hist.push((d.delivery_tag(), d.body.len(), crate::rng::fnv(&d.body))),
+                other => {
+                    res.violate(
+                        "frame_not_handed_on",
+                        format!("burst of {} deliveries ({} bytes) cut as {}: delivery {} not received within 20s of its last byte having arrived ({:?})", nmsg, total, seg_name, i + 1, other.map(|_| "other message")),
+                    );
+                    std::mem::forget(cons);
+                    std::mem::forget(ch);
+                    std::mem::forget(conn);
+                    return;
+                }
+            }
+        }
+        histories.push(hist);
+        res.obs("e2e_bursts", 1);
+        drop(cons);
+        drop(ch);
+        let t = crate::run::spawn("close", move || conn.close());
+        let _ = t.join(W);
+    }
+    if histories.windows(2).any(|w| w[0] != w[1]) {
+        res.violate("history_depends_on_segmentation", format!("the same server stream produced different client-visible histories under different segmentations ({} deliveries)", nmsg));
+    }
+    res.sample = Some(json!({"e2e_burst_deliveries": nmsg, "bytes": total}));
+}
+
 /// EOF after `a` bytes of the stream.
 fn feed_truncated(frames: &[AMQPFrame], cut_encs: &[Vec<u8>], a: usize, res: &mut CaseResult) {
     let stream: Vec<u8> = cut_encs.concat();
@@ -516,6 +628,7 @@ fn feed_truncated(frames: &[AMQPFrame], cut_encs: &[Vec<u8>], a: usize, res: &mu
         steps: vec![Step::Data(stream.clone()), Step::Eof].into(),
         supplied: 0,
         read_calls: 0,
+        last_was_wouldblock: false,
     };
     let mut fb = FrameBuffer::new();
     let mut delivered: Vec<AMQPFrame> = Vec::new();
